@@ -231,6 +231,7 @@ func (cs *ContractSet) ParseContractFile(path, pkgPath string) error {
 				cur.NoPanic = true
 			case "lemma":
 				cur.Lemma = true
+				cur.NoPanic = true // a lemma proves its ensures only for inputs on which its body does not panic
 			case "arith":
 				cur.Arith = strings.TrimSpace(rest)
 			case "note":
